@@ -11,6 +11,11 @@ var commonAssumptions = []string{
 }
 
 func init() {
+	property(&Property{ID: "C20",
+		Rules: []string{"CS.ensure", "CS.mongo", "L5", "O2.cache", "L4c"},
+		Explanation: "Decides the bookkeeping structure of the caches, not the range arithmetic. Decided: ChangeStore fetches exactly the ranges calcMissingRanges returned for the requested interval, records a range only after its fetch succeeded, inserts what it fetched, scans [from, to] in ServerSeq order, merges adjacent ranges with To = max, and skips a cached range only when it does not overlap (CS.ensure); ranges and tree are touched only under the store's mutex (L5); the rebuilt-document cache is used only when not newer than requested, hands out and stores deep copies (O2.cache) and is populated only under the document lock, so compaction's invalidation cannot be overtaken (L4c); every MongoDB method that writes a cached collection touches the bound cache (CS.mongo — analysed only, MongoDB cannot run here). Not decided: calcMissingRanges/mergeAdjacentRanges arithmetic beyond the listed relations; LRU expiry.",
+		Assumptions: commonAssumptions,
+	})
 	property(&Property{ID: "C17",
 		Rules: []string{"L5", "L6", "PS.map", "O6"},
 		Explanation: "Decides the locking and ordering structure of subscribe/publish/unsubscribe, not bounded-time delivery. Decided: every access to the closed flag, the failure counter and every send/close on a subscription's channel is made under the subscription's mutex, the pending batch under the publisher's mutex, the map shards under their locks (L5); sends and closes happen only when not closed and closes mark closed first, the publisher is closed exactly once from inside the map's delete callback (L6); a new subscription is registered inside the Upsert callback and the set is removed and closed only inside the Delete callback when it exists and is empty — the lost-wakeup window between the last unsubscribe and a new subscribe is closed structurally; the publisher flushes on tick and before it exits (PS.map); every request that stored changes starts the goroutine that publishes DocChanged (O6). Observation, not a violation of the schedule-only quantifier: a pull error after a successful push returns before the publish. Not decided: delivery within a bound, stalled-consumer timing.",
